@@ -47,7 +47,8 @@ PROPS = {
                lambda c: sched.sched_progress(c, (sched.FB,)),
                lambda c: sched.sched_sibling(c, ('feedback',)),
                lambda c: sched.sched_handover(c, (sched.FB,)),
-               lambda c: sched.sched_pair(c, (sched.FB,))],
+               lambda c: sched.sched_pair(c, (sched.FB,)),
+               lambda c: sched.key_rebind(c, (sched.FB,))],
         decided=['documented defaults run', 'termination (progress guard)',
                  'every increment handed to the integrator exactly once',
                  'epoch list de-duplicated, clipped to [start, end], sentinel last',
@@ -66,6 +67,7 @@ PROPS = {
                lambda c: sched.sched_sibling(c, ('feedforward',)),
                lambda c: sched.sched_handover(c, (sched.FF,)),
                lambda c: sched.sched_pair(c, (sched.FF,)),
+               lambda c: sched.key_rebind(c, (sched.FF,)),
                sched.step_bound],
         decided=['documented defaults run', 'termination and strictly increasing output index '
                  '(progress guard)', 'step never beyond max(time step, local gap)',
